@@ -69,9 +69,28 @@ def _vmsa_tables(rng, dev, mode):
         for i in (0, 0xFFF):
             ents[i] = rng.choice([section(i << 20, ap=rng.randrange(8), domain=rng.randrange(16)), rng.getrandbits(32),
                                   (TABLES + 0x400 * rng.randrange(4)) | 1, 0])
+    if mode == 'identity' and rng.random() < 0.7:
+        # VA 0x00100000..0x001FFFFF through a second-level table at TABLES+0x1000 (small / large pages, faults, noise) and a
+        # supersection at VA 0x01000000, so that loads/stores and fetches through registers aimed there do full two-level walks
+        ents[1] = (TABLES + 0x1000) | rng.randrange(16) << 5 | rng.getrandbits(1) << 3 | 0b01
+        for i in range(256):
+            pa = rng.choice([LOW, CODE, DATA, DATA]) + 0x1000 * rng.randrange(0, 2)
+            r = rng.random()
+            if r < 0.6:
+                d = (pa & 0xFFFFF000) | rng.getrandbits(1) << 11 | rng.getrandbits(1) << 9 | rng.choice([3, 3, 2, 1, 0]) << 4 | rng.getrandbits(2) << 2 | 0b10 | (rng.random() < 0.15)
+            elif r < 0.75:
+                d = (pa & 0xFFFF0000) | rng.getrandbits(1) << 15 | rng.getrandbits(1) << 9 | rng.choice([3, 3, 2, 1, 0]) << 4 | rng.getrandbits(2) << 2 | 0b01
+            elif r < 0.9:
+                d = 0
+            else:
+                d = rng.getrandbits(32)
+            G.set_data(dev, 0x1000 + 4 * i, d.to_bytes(4, 'little'))
+        ss = 1 << 18 | rng.choice([3, 3, 1, 0]) << 10 | rng.getrandbits(1) << 15 | rng.getrandbits(1) << 4 | 0b10 | (rng.getrandbits(4) << 20 if rng.random() < 0.2 else 0)
+        for i in range(16, 32):
+            ents[i] = ss
     for i, v in ents.items():
         G.set_data(dev, 4 * i, v.to_bytes(4, 'little'))
-    # a few second-level entries
+    # a few seeded second-level entries
     for t in range(2):
         for _ in range(4):
             G.set_data(dev, 0x1000 + 0x400 * t + 4 * rng.randrange(256), rng.getrandbits(32).to_bytes(4, 'little'))
@@ -132,13 +151,25 @@ def regime(rng, cfg, first=False):
         sys['prrr'] = rng.getrandbits(32)
         sys['nmrr'] = rng.getrandbits(32)
         if cfg.get('have_lpae'):
-            sys['ttbr0_64'] = TABLES
+            # long-descriptor stage 1: TTBR0/1 point either at the short-descriptor words (noise) or at the 1 GiB identity blocks
+            sys['ttbr0_64'] = rng.choice([TABLES, TABLES + 0x3000, TABLES + 0x3000])
+            sys['ttbr1_64'] = rng.choice([TABLES, TABLES + 0x3000, 0])
             sys['mair0'] = rng.getrandbits(32)
             sys['mair1'] = rng.getrandbits(32)
     sys['vbar'] = rng.choice([0, 0, LOW + 0x200, CODE])
     sys['mvbar'] = rng.choice([0, LOW + 0x400, CODE + 0x100])
     sys['hvbar'] = rng.choice([0, LOW + 0x800])
-    return {'cpsr': cpsr, 'sys': sys, 'R': G.random_regfile(rng, cfg), 'spsr': G.random_spsrs(rng, cfg, valid=True),
+    if cfg.get('have_virt_ext') and cfg.get('have_lpae'):
+        # Hyp-mode stage 1 (HSCTLR.M) through the same block table
+        sys['httbr'] = rng.choice([TABLES + 0x3000, TABLES + 0x3000, TABLES])
+        sys['htcr'] = rng.choice([0, 0, rng.getrandbits(3)]) | rng.getrandbits(6) << 8
+        if rng.random() < 0.3:
+            sys['hsctlr'] = sys.get('hsctlr', 0) | 1
+    R = G.random_regfile(rng, cfg)
+    if cfg['memory_system_architecture'] == 'VMSA' and rng.random() < 0.5:
+        for _ in range(2):
+            R['R%dusr' % rng.randrange(8)] = rng.choice([0x00100000 + 0x1000 * rng.randrange(256), 0x01000000 + 0x10000 * rng.randrange(16)]) + rng.choice([0, 4, 0xFFC, 0xFFE, 0x3C0])
+    return {'cpsr': cpsr, 'sys': sys, 'R': R, 'spsr': G.random_spsrs(rng, cfg, valid=True),
             'elr_hyp': G.random_value(rng)}
 
 
